@@ -285,14 +285,13 @@ def s4(ck, an):
     ck.check(ok, "PATHCOUNT", "S4.prefill-on-first-event", fp.f.short, fp.f.loc, "on the first observation the queue is filled to capacity with that observation (a full window is always served)",
              "the queue is not pre-filled to maxlen on the first observation", construct="if self.last_event is None: for _ in range(self.queue.maxlen): self.queue.append([...])")
     le = [s for s in assigns_to_attr(fp, "last_event")]
-    ck.check(bool(le) and all(isinstance(s, ast.Assign) and ast.unparse(s.value) == ev and not fp.syntactic_guards(s) for s in le), "ARGFLOW", "S4.last-event-tracked", fp.f.short, fp.f.loc, "last_event is set on every observation",
+    ck.check(bool(le) and all(isinstance(s, ast.Assign) and fp.sym.canon(s.value) == ev and not fp.syntactic_guards(s) for s in le), "ARGFLOW", "S4.last-event-tracked", fp.f.short, fp.f.loc, "last_event is set on every observation",
              "last_event is not set unconditionally", construct="self.last_event = event")
     fq = an.fa("State.parse")
     rets = returns_in(fq)
-    fw = Forward(an, fq, assume=lambda s, f: True if "stride" in ast.unparse(s.test) else None, call_effects=False).run()
-    with_stride = [v.key() for r, v, st in fw.returns if v is not None]
-    fw2 = Forward(an, fq, assume=lambda s, f: False if "stride" in ast.unparse(s.test) else None, call_effects=False).run()
-    no_stride = [v.key() for r, v, st in fw2.returns if v is not None]
+    STRIDE = ("truthy", "self.stride", True)
+    tabp = decision_table(fq, [STRIDE], lambda fw_, events: sorted({v.key() for r_, v, st_ in fw_.returns if v is not None}))      # the stride test may be written either way round
+    with_stride, no_stride = tabp[(True,)], tabp[(False,)]
     ck.check(no_stride == ["np.concatenate(self.queue)"], "LIN", "S4.serves-whole-window", fq.f.short, fq.f.loc, "without stride the observation is the concatenated window, oldest first", f"parse returns {no_stride}", construct="x = np.concatenate(self.queue)")
     ck.check(with_stride == ["(np.concatenate(self.queue)[::-self.stride])[::-1]"] or with_stride == ["np.concatenate(self.queue)[::-self.stride][::-1]"], "LIN", "S4.stride-from-most-recent", fq.f.short, fq.f.loc,
              "with stride the window is thinned from the most recent row backwards and flipped back: [::-stride][::-1]", f"parse (stride) returns {with_stride}", construct="x = x[::-self.stride][::-1]")
